@@ -167,8 +167,8 @@ func c01Matrix() []c01cell {
 	// A. parameters: location x primitive x {scalar, array} x required x nullable x {inline, schema $ref, parameter $ref} x level
 	for _, in := range []string{"query", "header", "path"} {
 		for _, pk := range c01Prims {
-			for _, shape := range []string{"scalar", "array"} {
-				if shape == "array" && in == "path" {
+			for _, shape := range []string{"scalar", "array", "array-null-items"} {
+				if shape != "scalar" && in == "path" {
 					continue
 				}
 				for _, req := range []bool{true, false} {
@@ -187,6 +187,10 @@ func c01Matrix() []c01cell {
 								sp := c01Base()
 								sc := pk.mk()
 								if shape == "array" {
+									sc = &dialect.Schema{Type: "array", Items: sc}
+								}
+								if shape == "array-null-items" {
+									sc.Nullable = true
 									sc = &dialect.Schema{Type: "array", Items: sc}
 								}
 								sc.Nullable = nullable
